@@ -16,7 +16,8 @@ from .world import (CONVERT_TARGET, apply_convert, call_with_mode, do_restart,
                     func_args, module_state_snap, run_func, select_backward,
                     thaw_pyramid)
 
-EPS = {"float32": float(np.finfo(np.float32).eps), "float64": float(np.finfo(np.float64).eps)}
+EPS = {"float32": float(np.finfo(np.float32).eps), "float64": float(np.finfo(np.float64).eps),
+       "float16": float(np.finfo(np.float16).eps), "bfloat16": 2.0 ** -7}
 
 
 def fresh(default_dtype):
@@ -398,6 +399,8 @@ def check_c16(w, rec, st):
                     "in %s gives %s (%s)" % (path, cur, rec["outcome"], cur, oc, rec.get("exc_msg", "")))
         return
     if oc != "ok":
+        # a strided input must also *fail* like its contiguous copy
+        check_d4(w, rec, st, kind, in_dt)
         return
     narrowed = _narrowed(rec["recipe"], expected_dtype(rec["recipe"])) or (
         kind == "roundtrip" and _narrowed(rec["recipe2"], expected_dtype(rec["recipe2"])))
@@ -440,6 +443,8 @@ def check_c16(w, rec, st):
     bad = _wrong_dtype(rec["out_snap"], in_dt)
     if bad:
         w.violation("D1-output-dtype", rec, "input dtype %s but %s" % (in_dt, bad))
+    check_d4(w, rec, st, kind, in_dt)
+def check_d4(w, rec, st, kind, in_dt):
     # (iv) strided input == contiguous copy
     strided_pyr = kind == "inverse" and (rec["pyr"][3] or any(rec["pyr"][4]))
     if strided_pyr or (kind == "call" and rec["op"]["arg"].get("layout", "contig") != "contig"):
@@ -454,9 +459,12 @@ def check_c16(w, rec, st):
             w.violation("D4-strided", rec, "strided input: %s, contiguous copy: %s" % (oc1, oc2))
         elif oc1 == "ok":
             s2 = snap(v2)
-            m = compare(snap(v1), s2, "tol", 16 * EPS[in_dt], scale=max(1e-30, max_abs(s2)))
+            m = compare(snap(v1), s2, "tol", 16 * EPS.get(in_dt, EPS["float32"]),
+                        scale=max(1e-30, max_abs(s2)))
             if m:
                 w.violation("D4-strided", rec, "strided input vs contiguous copy: " + m)
+
+
 
 
 def _narrowed(recipe, cur):
